@@ -615,6 +615,34 @@ def oracle_geomodel(case, rec):
                       "geoIII_degree_pairs_of_links_preserved",
                       lambda: "before %s after %s" % (pairs(A0)[:12],
                                                       pairs(B)[:12]))
+        # ---- the same object rewired again after its links were replaced
+        # through the public setter by another graph with as many links
+        # (here: the current graph with its node numbers reversed)
+        if it > 0 and (sa, sb) == tuple(case["seeds"][0]):
+            C = B[::-1, ::-1].copy()
+            ok, _ = rec.call(tag + "_assign_adjacency", setattr, net,
+                             "adjacency", C.copy())
+            if ok:
+                edges2 = [tuple(e) for e in net.graph.get_edgelist()]
+                if eligible_count(swap_needs(C, D32, model, edges2), eps):
+                    pbt.seed_library_rngs(sb, sa)
+                    E2 = int(np.triu(C, 1).sum())
+                    ok, _ = call_bounded(
+                        rec, tag + "_call_after_new_adjacency",
+                        50 * it * E2 * E2 + 1000,
+                        getattr(net, "randomly_rewire_geomodel_" + model),
+                        distance_matrix=Dd.copy(), iterations=it,
+                        inaccuracy=eps)
+                    if ok:
+                        rec.label("rewired_again_after_new_adjacency")
+                        B2 = check_object(rec, net, tag + "_second", n, False)
+                        if B2 is not None:
+                            rec.check(np.array_equal(B2.sum(axis=1),
+                                                     C.sum(axis=1)),
+                                      tag + "_degree_sequence_preserved_after"
+                                      "_new_adjacency",
+                                      "before %s after %s" % (
+                                          C.sum(axis=1), B2.sum(axis=1)))
     rec.label("changed" if changed else "unchanged")
     rec.nontrivial(changed)
 
